@@ -103,7 +103,8 @@ for name,text in V.items():
     assert text!=src, name
     d=tempfile.mkdtemp(prefix='mxv'); os.makedirs(d+'/pkg/net/multiplex')
     open(d+'/pkg/net/multiplex/mux.go','w').write(text); shutil.copy('/repo/pkg/net/multiplex/ttrpc.go', d+'/pkg/net/multiplex/')
-    out=subprocess.run(['/verif/build/gen_muxconsts','-repo',d],capture_output=True,text=True).stdout
+    out=subprocess.run(['/verif/build/gen_muxconsts','-noprobe','-repo',d],capture_output=True,text=True).stdout
     sw=[l.split(':=')[1].strip().rstrip('.')[0].upper() for l in out.split('\n') if l.startswith('Definition') and 'bool' in l]
+    sw=['T' if ':= true.' in l else 'F' for l in out.split('\n') if l.startswith('Definition') and ': bool' in l]
     print('%-28s %s'%(name,'   '.join(sw)))
     shutil.rmtree(d)
